@@ -86,8 +86,22 @@ func (t *TimerBasedElectionTrigger) Stop() {
 }
 
 func (t *TimerBasedElectionTrigger) CalcTimeout(view primitives.View) time.Duration {
-	timeoutMultiplier := time.Duration(int64(math.Pow(TIMEOUT_EXP_BASE, float64(view))))
-	return timeoutMultiplier * t.minTimeout
+	if TIMEOUT_EXP_BASE != 2.0 {
+		return t.calcTimeoutForBase(TIMEOUT_EXP_BASE, view)
+	}
+	// minTimeout * 2^view, saturating at the largest Duration instead of wrapping around
+	if view >= 63 || t.minTimeout > math.MaxInt64>>view {
+		return math.MaxInt64
+	}
+	return t.minTimeout << view
+}
+
+func (t *TimerBasedElectionTrigger) calcTimeoutForBase(base float64, view primitives.View) time.Duration {
+	timeout := math.Pow(base, float64(view)) * float64(t.minTimeout)
+	if !(timeout < math.MaxInt64) { // also catches +Inf and NaN
+		return math.MaxInt64
+	}
+	return time.Duration(timeout)
 }
 
 func triggerElections(electionChannel chan *interfaces.ElectionTrigger, height primitives.BlockHeight, view primitives.View, triggerCancelled chan struct{}, electionsFunc func()) {
